@@ -8,6 +8,7 @@ back-pressure limit).
 -/
 import JubakoModel.Model.Pipeline
 import JubakoModel.Lemmas.Pipeline
+import JubakoModel.Lemmas.FuncsPipe
 import JubakoModel.Lemmas.Creator
 import JubakoModel.Lemmas.ContentFile
 
@@ -93,5 +94,18 @@ example :
     ∃ s, (Pipe.init cs 1).run codec [.mainSend, .mainSend, .take 0, .write, .finish 0, .release 0, .write] = some s ∧
       s.final = true ∧ s.order = [1, 0] := by
   refine ⟨_, rfl, by decide, by decide⟩
+
+/-- **The actions of the pipeline model are the statement sequences of the source**: on every run the
+    statements of `ClusterWriterProxy::write_cluster` (compressed branch: wait while the counter is at the
+    limit, increment, send to the workers; raw branch: send to the writer) and of the loop body of
+    `ClusterCompressor::run` (receive, compress into a private buffer, send to the writer, lock, decrement,
+    notify) are extracted from `creator/content_pack/clusterwriter.rs` and must be exactly the sequences
+    that `.mainSend`, `.take`/`.finish`/`.release` of Model/Pipeline.lean stand for — the protocol under
+    which `c08_no_deadlock`, `c08_terminates` and `c08_backpressure_inv` are proved. -/
+theorem c08_pipeline_statements_are_source_statements :
+    Generated.pipelineDispatchShape = mainSendCompressedStmts ∧
+    Generated.pipelineRawShape = mainSendRawStmts ∧
+    Generated.pipelineWorkerShape = workerTurnStmts :=
+  gen_pipelineShapes
 
 end Jubako
